@@ -13,7 +13,7 @@ from __future__ import annotations
 
 import itertools
 
-from mc import drive, lang as L, enumerate as E, models
+from mc import drive, lang as L, enumerate as E, models, child
 from checks import c01
 
 ID = "C08"
@@ -153,6 +153,10 @@ def faults(base_name):
         for dep in sorted(deps_of(rhs)):
             import re
             out.append((f"undefined|{name}|{dep}", [x if x is not d else (kind, comp, name, re.sub(rf"\b{dep}\b", "undef0", rhs)) for x in base]))
+        # the definition itself removed while its uses stay (right-hand sides textually unchanged)
+        if kind == "parameter" or (kind == "assign" and not (name.startswith("d") and name.endswith("_dt"))):
+            if any(name in deps_of(x[3]) for x in base if x is not d):
+                out.append((f"definition-removed|{name}", [x for x in base if x is not d]))
         if kind in ("state", "parameter"):
             out.append((f"undefined-in-value|{name}", [x if x is not d else (kind, comp, name, rhs + "*undef0") for x in base]))
     for comp in comps:
@@ -223,13 +227,33 @@ def run_item(item):
     text = render(defs)
     reason = ill_formed(defs)
     outcome = {}
-    for gen in ("py", "c"):
-        try:
-            ode = drive.load(text)
-            code = drive.py_code(ode) if gen == "py" else drive.c_code(ode)
-            outcome[gen] = "accepted"
-        except Exception as ex:
-            outcome[gen] = f"raised {type(ex).__name__}"
+    bn0 = item["key"].split("|")[0]
+
+    def attempt(history):
+        out = {}
+        if history == "after-base":
+            try:  # the well-formed base model is loaded and generated first in the same (fresh) process
+                ob = drive.load(render(BASES[bn0]))
+                drive.py_code(ob)
+            except Exception:
+                pass
+        for gen in ("py", "c"):
+            try:
+                ode = drive.load(text)
+                code = drive.py_code(ode) if gen == "py" else drive.c_code(ode)
+                out[gen] = "accepted"
+            except Exception as ex:
+                out[gen] = f"raised {type(ex).__name__}"
+        return out
+    for history in ("fresh", "after-base"):
+        st, out = child.run(attempt, (history,), timeout=120)
+        if st != "ok":
+            out = {"py": f"child-{st}", "c": f"child-{st}"}
+        for gen, o in out.items():
+            if o == "accepted" or gen not in outcome:
+                outcome[gen] = o if outcome.get(gen) != "accepted" else "accepted"
+            if o == "accepted" and history == "after-base":
+                outcome[gen + "-history"] = "accepted only/also after the base model was processed in the same process"
         res["transitions"] += 2
     res["traces"] = 1
     res["evaluations"] = 1
@@ -237,7 +261,7 @@ def run_item(item):
     bn = item["key"].split("|")[0]
     if reason:
         res["nontrivial"] = 1
-        acc = [g for g, o in outcome.items() if o == "accepted"]
+        acc = [g for g, o in outcome.items() if o == "accepted" and g in ("py", "c")]
         if acc:
             which = ""
             try:
@@ -251,7 +275,7 @@ def run_item(item):
                                     "detail": {"text": text, "reason": reason, "outcome": outcome}})
     else:
         # only the explicit control edits must be accepted; a verbatim repetition is not a *differing* definition, so nothing is demanded of it
-        if item["label"].startswith("control|") and any(o != "accepted" for o in outcome.values()):
+        if item["label"].startswith("control|") and any(outcome.get(g_) != "accepted" for g_ in ("py", "c")):
             res["failures"].append({"finding": f"{ID}|control-rejected|{bn}|{fault_class(item['label'])}", "size": len(text),
                                     "what": f"well-formed control text is rejected: {outcome}", "detail": {"text": text, "outcome": outcome}})
     return res
